@@ -77,6 +77,13 @@ def cases(tier, seed):
         for nie in (False, True):
             for bad in ('error', 'fail'):
                 yield [w, nie, 0, bad]
+    # layer OBJECTS of other shapes: instance layers that are falsy (an empty
+    # container / __bool__ False) or compared by value
+    for w in worlds.rot(ws, seed)[:12]:
+        for nie in (False, True):
+            for fi in (0, 1, 2):
+                for ish in ('len0', 'bool0', 'eq'):
+                    yield [w, nie, fi, None, ish]
     for where in ('unit', 'layer_test', 'nowhere'):
         for mode in ('resumed', 'j2'):
             yield ['cwd', where, mode]
@@ -381,7 +388,11 @@ def run_case(case):
         return {'evals': 1, 'nontrivial': 1, 'violations': viol, 'outcome': ('names', case[2])}
     w, nie, fi = case[:3]
     spec = build(w, nie)
-    if len(case) > 3:
+    if len(case) > 4:
+        for L in spec['layers']:
+            L['k'] = 'i'
+            L['ish'] = case[4]
+    if len(case) > 3 and case[3]:
         # the first test that runs (L1 is first in layer order when it has
         # tests, the unit layer otherwise) errors / fails
         d0 = refmodel.declared(spec)
